@@ -110,10 +110,11 @@ structure MSt where
 
 def fail (sig what : String) : Fail := { prop := "C10", sig := sig, what := what }
 
-/-- rates on which C10 speaks: deterministic sampler `1 ≤ r < 2^32` (contains 1..2^31), stress
-relief every `uint64` (0 means 1). -/
+/-- rates on which C10 speaks.  Since the C28 repair of `DeterministicSampler.Start` every `int`
+rate must give a decision (rates ≤ 1 keep everything, nesting holds across all rates); stress
+relief: every `uint64` (0 means 1). -/
 def inDomain (kind : String) (r : Int) : Bool :=
-  if kind == "det" then decide (1 ≤ r ∧ r < 4294967296) else decide (0 ≤ r)
+  if kind == "det" then true else decide (0 ≤ r)
 
 /-- answer triple `<keep> <rate> <reason>` -/
 def parseAns (t : List String) : Option (Bool × Nat × String) :=
@@ -137,8 +138,7 @@ def monSample (m : MSt) (kind id : String) (rate : Int) (obs : String) : MSt × 
       [fail s!"C10:{kind}-instances-disagree" s!"id={id} rate={rate}: instance A says `{sa}`, instance B says `{sb}`"] else []
   match parseAns a with
   | none =>
-    -- a panic (or garbage).  Inside the property's rate domain that is a violation; outside it
-    -- (rate 0, multiples of 2^32: accepted by validation) it is recorded under C28, not here.
+    -- a panic (or garbage): no decision for an accepted rate is a violation
     let f3 := if inDomain kind rate then
         [fail s!"C10:{kind}-no-decision-in-domain" s!"id={id} rate={rate}: `{sa}`"] else []
     (m, f1 ++ f2 ++ f3)
